@@ -17,6 +17,7 @@ import (
 	"sort"
 	"strings"
 	"sync"
+	"sync/atomic"
 	"testing"
 	"time"
 
@@ -51,6 +52,7 @@ type fakeDaemon struct {
 	status int
 	body   string
 	srv    *httptest.Server
+	conns  int64 // connections currently open at the daemon
 }
 
 func (d *fakeDaemon) handler(w http.ResponseWriter, r *http.Request) {
@@ -73,45 +75,61 @@ func (d *fakeDaemon) take() []daemonReq {
 }
 
 var (
-	daemon   *fakeDaemon
-	rec      *fakes.Recorder
-	proxyURL string
-	client   = &http.Client{Timeout: 20 * time.Second, CheckRedirect: func(*http.Request, []*http.Request) error { return http.ErrUseLastResponse }}
+	daemon    *fakeDaemon
+	rec       *fakes.Recorder
+	proxyURL  string // the instance of the running case
+	proxyURLs []string
+	client    = &http.Client{Timeout: 20 * time.Second, CheckRedirect: func(*http.Request, []*http.Request) error { return http.ErrUseLastResponse }}
 )
 
 func TestMain(m *testing.M) {
 	daemon = &fakeDaemon{status: 200, body: "{}"}
-	daemon.srv = httptest.NewServer(http.HandlerFunc(daemon.handler))
-	l, err := net.Listen("tcp", "127.0.0.1:0")
-	if err != nil {
-		panic(err)
-	}
-	port := l.Addr().(*net.TCPAddr).Port
-	l.Close()
-	cfg := &ipfsproxy.Config{}
-	cfg.Default()
-	la, _ := ma.NewMultiaddr(fmt.Sprintf("/ip4/127.0.0.1/tcp/%d", port))
-	cfg.ListenAddr = []ma.Multiaddr{la}
-	host, dport, _ := net.SplitHostPort(strings.TrimPrefix(daemon.srv.URL, "http://"))
-	cfg.NodeAddr, _ = ma.NewMultiaddr(fmt.Sprintf("/ip4/%s/tcp/%s", host, dport))
-	// a short header deadline and (the default) no deadline for the body: an
-	// upload may take longer than the headers are allowed to
-	cfg.ReadHeaderTimeout = 400 * time.Millisecond
-	proxy, err := ipfsproxy.New(cfg)
-	if err != nil {
-		panic(err)
-	}
-	rec = fakes.NewRecorder()
-	proxy.SetClient(fakes.NewRecordingRPC(rec))
-	proxyURL = fmt.Sprintf("http://127.0.0.1:%d", port)
-	for i := 0; i < 200; i++ {
-		c, err := net.Dial("tcp", fmt.Sprintf("127.0.0.1:%d", port))
-		if err == nil {
-			c.Close()
-			break
+	daemon.srv = httptest.NewUnstartedServer(http.HandlerFunc(daemon.handler))
+	daemon.srv.Config.ConnState = func(c net.Conn, st http.ConnState) {
+		switch st {
+		case http.StateNew:
+			atomic.AddInt64(&daemon.conns, 1)
+		case http.StateClosed, http.StateHijacked:
+			atomic.AddInt64(&daemon.conns, -1)
 		}
-		time.Sleep(10 * time.Millisecond)
 	}
+	daemon.srv.Start()
+	rec = fakes.NewRecorder()
+	// two proxy instances in front of the same fake daemon and recorder:
+	// request tracing off and on (tracing installs another handler chain)
+	for _, tracing := range []bool{false, true} {
+		l, err := net.Listen("tcp", "127.0.0.1:0")
+		if err != nil {
+			panic(err)
+		}
+		port := l.Addr().(*net.TCPAddr).Port
+		l.Close()
+		cfg := &ipfsproxy.Config{}
+		cfg.Default()
+		la, _ := ma.NewMultiaddr(fmt.Sprintf("/ip4/127.0.0.1/tcp/%d", port))
+		cfg.ListenAddr = []ma.Multiaddr{la}
+		host, dport, _ := net.SplitHostPort(strings.TrimPrefix(daemon.srv.URL, "http://"))
+		cfg.NodeAddr, _ = ma.NewMultiaddr(fmt.Sprintf("/ip4/%s/tcp/%s", host, dport))
+		// a short header deadline and (the default) no deadline for the body: an
+		// upload may take longer than the headers are allowed to
+		cfg.ReadHeaderTimeout = 400 * time.Millisecond
+		cfg.Tracing = tracing
+		proxy, err := ipfsproxy.New(cfg)
+		if err != nil {
+			panic(err)
+		}
+		proxy.SetClient(fakes.NewRecordingRPC(rec))
+		proxyURLs = append(proxyURLs, fmt.Sprintf("http://127.0.0.1:%d", port))
+		for i := 0; i < 200; i++ {
+			c, err := net.Dial("tcp", fmt.Sprintf("127.0.0.1:%d", port))
+			if err == nil {
+				c.Close()
+				break
+			}
+			time.Sleep(10 * time.Millisecond)
+		}
+	}
+	proxyURL = proxyURLs[0]
 	code := m.Run()
 	ev.Flush()
 	os.Exit(code)
@@ -159,11 +177,12 @@ func drawArg(t *rapid.T) argSpec {
 	}
 }
 
-const ruleHijack = "hijacked routes (pin/add, pin/rm, pin/ls, pin/update, repo/stat, repo/gc, add) with methods POST/GET/PUT, both argument styles (?arg= and /path/{arg}), the endpoint path spelled plainly or with a percent-encoded slash or letter, valid and invalid CIDs and paths, multipart uploads that break off between two parts, options (type, unpin, stream-errors, pin, only-hash, trickle, layout, chunker, raw-leaves, cid-version, hash, wrap-with-directory, stream-channels, invalid values), cluster answering success or error; oracle: the expected cluster call(s) with the requested path and options, nothing written when the proxy answers with an error, never relayed to the daemon; non-trivial = at least one option or an error; distinct by request line"
+const ruleHijack = "(invariant: at most 100 connections open at the daemon at any time) (proxy instance with request tracing off or on) hijacked routes (pin/add, pin/rm, pin/ls, pin/update, repo/stat, repo/gc, add) with methods POST/GET/PUT, both argument styles (?arg= and /path/{arg}), the endpoint path spelled plainly or with a percent-encoded slash or letter, valid and invalid CIDs and paths, multipart uploads that break off between two parts, options (type, unpin, stream-errors, pin, only-hash, trickle, layout, chunker, raw-leaves, cid-version, hash, wrap-with-directory, stream-channels, invalid values), cluster answering success or error; oracle: the expected cluster call(s) with the requested path and options, nothing written when the proxy answers with an error, never relayed to the daemon; non-trivial = at least one option or an error; distinct by request line"
 
 func TestHijacked(t *testing.T) {
 	leg := ev.L("hijacked", ruleHijack)
 	rapid.Check(t, func(t *rapid.T) {
+		proxyURL = proxyURLs[rapid.IntRange(0, 1).Draw(t, "tracingInstance")]
 		rec.Reset()
 		daemon.take()
 		method := rapid.SampledFrom([]string{"POST", "POST", "GET", "PUT"}).Draw(t, "method")
@@ -380,14 +399,32 @@ func TestHijacked(t *testing.T) {
 			n := rapid.IntRange(0, 4).Draw(t, "npeers")
 			peers := gen.Peers[:n]
 			rec.Set("Consensus.Peers", func(interface{}) (interface{}, error) { return append([]peer.ID{}, peers...), nil })
-			rec.Set("IPFSConnector.RepoStat", func(interface{}) (interface{}, error) { return api.IPFSRepoStat{RepoSize: 7, StorageMax: 100}, nil })
+			// one member's daemon may be down: its call fails (the k-th to
+			// arrive; the recording RPC has no notion of destinations), the
+			// figures of the others still add up
+			failK := -1
+			if n > 0 && rapid.IntRange(0, 2).Draw(t, "onePeerFails") == 0 {
+				failK = rapid.IntRange(0, n-1).Draw(t, "failingCall")
+				nontrivial = true
+			}
+			var arrived int64
+			rec.Set("IPFSConnector.RepoStat", func(interface{}) (interface{}, error) {
+				if k := atomic.AddInt64(&arrived, 1) - 1; int(k) == failK {
+					return nil, fmt.Errorf("ipfs daemon unreachable")
+				}
+				return api.IPFSRepoStat{RepoSize: 7, StorageMax: 100}, nil
+			})
 			check = func(status int, rb []byte, tr http.Header, calls []fakes.RPCCall) {
 				var st api.IPFSRepoStat
 				if err := json.Unmarshal(rb, &st); err != nil {
 					fail("bad repo/stat response %q", rb)
 				}
-				if st.RepoSize != uint64(7*n) || st.StorageMax != uint64(100*n) {
-					fail("repo/stat = %+v, want the sum over %d members of {7,100}", st, n)
+				up := n
+				if failK >= 0 {
+					up--
+				}
+				if st.RepoSize != uint64(7*up) || st.StorageMax != uint64(100*up) {
+					fail("repo/stat = %+v, want the sum over the %d of %d members that answered {7,100}", st, up, n)
 				}
 			}
 		case "repo/gc":
@@ -653,6 +690,11 @@ func TestHijacked(t *testing.T) {
 		if expectErr {
 			cl = append(cl, "error-answer")
 		}
+		// the proxy talks to the daemon for every hijacked request (CORS and
+		// header probes): those conversations must end
+		if n := atomic.LoadInt64(&daemon.conns); n > 100 {
+			t.Fatalf("the IPFS daemon has %d connections open from the proxy: answering hijacked requests leaves connections to the daemon behind (the proxy stops answering when the descriptors run out)", n)
+		}
 		leg.Case(method+" "+u, nontrivial || expectErr, cl...)
 	})
 }
@@ -665,11 +707,12 @@ func cidMust(s string) cid.Cid {
 	return c
 }
 
-const ruleRelay = "requests that are not hijacked: other methods (OPTIONS, HEAD, DELETE, PATCH) on hijacked paths, other API paths, near misses (/api/v0/pin/verify, /api/v1/pin/add, /api/v0/pin/add/x/y, /api/v0/addx, /api/v0/repo/stat/x), arbitrary paths, raw queries with encodings and repeated keys, bodies (one in twelve uploaded with a pause longer than the proxy's header deadline); the daemon answers a generated status and body; oracle: the daemon received the same method, path, raw query and body bytes and the client got the daemon's status and body, and no cluster call happened; non-trivial = body and query both present; distinct by request"
+const ruleRelay = "requests that are not hijacked: other methods (OPTIONS, HEAD, DELETE, PATCH) on hijacked paths, other API paths, near misses (/api/v0/pin/verify, /api/v1/pin/add, /api/v0/pin/add/x/y, /api/v0/addx, /api/v0/repo/stat/x), arbitrary paths, raw queries with encodings and repeated keys, against a proxy with request tracing off or on, bodies (raw, url-encoded form or multipart; one in twelve uploaded with a pause longer than the proxy's header deadline); the daemon answers a generated status and body; oracle: the daemon received the same method, path, raw query and body bytes and the client got the daemon's status and body, and no cluster call happened; non-trivial = body and query both present; distinct by request"
 
 func TestRelayed(t *testing.T) {
 	leg := ev.L("relayed", ruleRelay)
 	rapid.Check(t, func(t *rapid.T) {
+		proxyURL = proxyURLs[rapid.IntRange(0, 1).Draw(t, "tracingInstance")]
 		rec.Reset()
 		daemon.take()
 		hijackedPaths := []string{"/api/v0/pin/add", "/api/v0/pin/rm", "/api/v0/pin/ls", "/api/v0/pin/update", "/api/v0/add", "/api/v0/repo/stat", "/api/v0/repo/gc", "/api/v0/pin/add/" + gen.Cids[0].String()}
@@ -684,8 +727,24 @@ func TestRelayed(t *testing.T) {
 		}
 		rawQuery := rapid.SampledFrom([]string{"", "arg=" + gen.Cids[0].String(), "arg=a%20b&arg=c+d&x=%2Fy", "a=1&a=2&b", "arg=/ipfs/" + gen.Cids[2].String() + "&recursive=true&progress=true", "q=%E2%9C%93;x"}).Draw(t, "query")
 		var body []byte
+		bodyType := ""
 		if method != "GET" && method != "HEAD" && method != "OPTIONS" && rapid.Bool().Draw(t, "hasbody") {
-			body = rapid.SliceOfN(rapid.Byte(), 1, 200).Draw(t, "body")
+			switch rapid.IntRange(0, 2).Draw(t, "bodyKind") {
+			case 0:
+				body = rapid.SliceOfN(rapid.Byte(), 1, 200).Draw(t, "body")
+			case 1:
+				// form bodies are what go-ipfs clients send (block/put, config...)
+				body = []byte("arg=" + url.QueryEscape(rapid.StringMatching("[a-z /=&]{1,30}").Draw(t, "formv")) + "&x=1")
+				bodyType = "application/x-www-form-urlencoded"
+			default:
+				var buf bytes.Buffer
+				mw := multipart.NewWriter(&buf)
+				fw, _ := mw.CreateFormFile("data", "blob")
+				fw.Write(rapid.SliceOfN(rapid.Byte(), 1, 300).Draw(t, "mpdata"))
+				mw.Close()
+				body = buf.Bytes()
+				bodyType = mw.FormDataContentType()
+			}
 		}
 		status := rapid.SampledFrom([]int{200, 200, 204, 400, 404, 500}).Draw(t, "status")
 		rbody := rapid.SampledFrom([]string{"{}", "{\"Message\":\"x\",\"Code\":0,\"Type\":\"error\"}", "plain text", ""}).Draw(t, "rbody")
@@ -715,6 +774,9 @@ func TestRelayed(t *testing.T) {
 		req, err := http.NewRequest(method, u, rd)
 		if slow && err == nil {
 			req.ContentLength = int64(len(body))
+		}
+		if err == nil && bodyType != "" {
+			req.Header.Set("Content-Type", bodyType)
 		}
 		if err != nil {
 			t.Fatal(err)
